@@ -72,6 +72,21 @@ def call(element, value):
         return "other:" + type(exc).__name__, exc
 
 
+def call_raw(element, value):
+    """Like call() but passes the caller's object itself (to observe whether it is modified)."""
+    from statham.schema.exceptions import ValidationError
+    try:
+        with warnings.catch_warnings():
+            warnings.simplefilter("ignore")
+            return "ok", element(value)
+    except ValidationError as exc:
+        return "reject", exc
+    except TypeError as exc:
+        return "typeerror", exc
+    except Exception as exc:  # noqa
+        return "other:" + type(exc).__name__, exc
+
+
 def project(result):
     """Project a real call result onto the ResultValue vocabulary of the specification."""
     from statham.schema.constants import NotPassed
@@ -266,21 +281,11 @@ def norm_elem(rec):
             tuple(norm_elem(x) for x in rec["elems"]))
 
 
-def build_element(rec, share=None, _depth=0):
-    """Element record (spec/Elements.tla shape, ToJson/dict form) -> real DSL objects through
-    the public constructors.  share: optional dict memo; when given, equal sub-records are
-    realised by ONE shared instance (the same element object at several positions)."""
+def kwargs_of(kw, share=None, _depth=0):
+    """kw record (Elements.tla spelling) -> constructor keyword arguments (real objects)."""
     import codec
-    import json as _json
-    from statham.schema import elements as E
     from statham.schema.property import Property
-    key = None
-    if share is not None:
-        key = _json.dumps(rec, sort_keys=True, default=str)
-        if key in share:
-            return share[key]
     sub = lambda r: build_element(r, share, _depth + 1)
-    kw = rec["kw"] if isinstance(rec["kw"], dict) else {}
     kwargs = {}
     deps = {}
     for k, v in kw.items():
@@ -314,6 +319,23 @@ def build_element(rec, share=None, _depth=0):
             kwargs[k] = v
     if deps or "depsL" in kw or "depsS" in kw:
         kwargs["dependencies"] = deps
+    return kwargs
+
+
+def build_element(rec, share=None, _depth=0):
+    """Element record (spec/Elements.tla shape, ToJson/dict form) -> real DSL objects through
+    the public constructors.  share: optional dict memo; when given, equal sub-records are
+    realised by ONE shared instance (the same element object at several positions)."""
+    import json as _json
+    from statham.schema import elements as E
+    key = None
+    if share is not None:
+        key = _json.dumps(rec, sort_keys=True, default=str)
+        if key in share:
+            return share[key]
+    sub = lambda r: build_element(r, share, _depth + 1)
+    kw = rec["kw"] if isinstance(rec["kw"], dict) else {}
+    kwargs = kwargs_of(kw, share, _depth)
     cls = rec["cls"]
     if cls in ("AnyOf", "OneOf", "AllOf"):
         out = getattr(E, cls)(*[sub(x) for x in rec["elems"]], **kwargs)
@@ -337,6 +359,41 @@ def build_element(rec, share=None, _depth=0):
     if share is not None:
         share[key] = out
     return out
+
+
+def deep_snapshot(roots):
+    """Structural fingerprint of vars() of every element / property reachable from roots (and of
+    the module-level UNBOUND_PROPERTY): identities of objects, values of literals."""
+    from statham.schema.elements import Element
+    from statham.schema.elements.base import UNBOUND_PROPERTY
+    from statham.schema.elements.meta import ObjectMeta
+    from statham.schema.property import _Property
+
+    def fp(v, d=0):
+        if isinstance(v, _Property):
+            return ("P", id(v), v.name, v.source, v.required, id(v.parent), id(v.element))
+        if isinstance(v, Element):
+            return ("E", id(v))
+        if isinstance(v, dict) and d < 6:
+            return ("D", id(v), tuple((k, fp(x, d + 1)) for k, x in v.items()))
+        if isinstance(v, (list, tuple)) and d < 6:
+            return ("L", id(v), tuple(fp(x, d + 1) for x in v))
+        return ("V", repr(v)[:80])
+
+    snap = []
+    seen = set()
+    for root in list(roots) + [UNBOUND_PROPERTY.element, UNBOUND_PROPERTY.parent]:
+        for e in walk_elements(root):
+            if id(e) in seen:
+                continue
+            seen.add(id(e))
+            if isinstance(e, ObjectMeta):
+                attrs = {k: v for k, v in vars(e).items() if not k.startswith("__")}
+            else:
+                attrs = vars(e)
+            snap.append((id(e), tuple(sorted((k, fp(v)) for k, v in attrs.items()))))
+    snap.append(fp(UNBOUND_PROPERTY))
+    return snap
 
 
 # ------------------------------------------------------------------ the real CLI path, in memory
